@@ -35,6 +35,8 @@ type Scenario struct {
 	Heights int    // heights to decide before the run is complete
 	AMEV    int64  // -1 off, else enabling height
 	TPB     time.Duration
+	TPB2    time.Duration // time per block returned by the callback from height TPB2From on (0: constant)
+	TPB2From uint32
 	MaxTPB  time.Duration // 0: dynamic block time off
 	TSInc   uint64
 	Fault   []FaultKind // per identity
@@ -116,6 +118,23 @@ func primaryOf(h uint32, v byte, n int) int {
 		p += int64(n)
 	}
 	return int(p)
+}
+
+// TPBAt is what the TimePerBlock callback returns for height h.
+func (sc *Scenario) TPBAt(h uint32) time.Duration {
+	if sc.TPB2 > 0 && h >= sc.TPB2From {
+		return sc.TPB2
+	}
+	return sc.TPB
+}
+
+// MaxTPBAt keeps the configured ratio of maximum to minimum block time at every height.
+func (sc *Scenario) MaxTPBAt(h uint32) time.Duration {
+	if sc.MaxTPB == 0 {
+		return 0
+	}
+	// (milliseconds, so that the product cannot overflow)
+	return time.Duration(sc.MaxTPB.Milliseconds()*sc.TPBAt(h).Milliseconds()/sc.TPB.Milliseconds()) * time.Millisecond
 }
 
 func (sc *Scenario) amevAt(h uint32) bool { return sc.AMEV >= 0 && uint32(sc.AMEV) <= h }
@@ -312,6 +331,10 @@ func SafetyScenario(t *Tape) *Scenario {
 	if t.Chance(SScen, 1, 4) {
 		sc.MaxTPB = sc.TPB * time.Duration(pick(t, SScen, 2, 3, 8, 1))
 	}
+	if t.Chance(SScen, 1, 4) {
+		sc.TPB2 = sc.TPB * time.Duration(pick(t, SScen, 2, 3)) / 2
+		sc.TPB2From = sc.Start + 1 + uint32(t.Range(SScen, 1, int64(sc.Heights)))
+	}
 	if t.Chance(SScen, 1, 6) {
 		// a validator with the watch-only flag set behaves like a silent one for
 		// the others; it is counted against the fault budget by marking it here.
@@ -380,7 +403,8 @@ func AMEVScenario(t *Tape) *Scenario {
 // full safety family.
 func TxScenario(t *Tape) *Scenario {
 	var sc *Scenario
-	if t.Chance(SScen, 1, 2) {
+	calm := !t.Chance(SScen, 1, 3)
+	if !calm {
 		sc = SafetyScenario(t)
 	} else {
 		sc = baseScenario(t, "safety", 7, 10)
@@ -398,6 +422,14 @@ func TxScenario(t *Tape) *Scenario {
 	sc.InvalidTxPM = pick(t, SScen, uint64(300), 100, 500, 0)
 	sc.PoolHoldsInvalid = true
 	sc.SupplySlow = int64(t.Draw(SScen, 4))
+	if calm && t.Chance(SScen, 3, 4) {
+		// the nested case wants: blocks that always carry transactions, many of them
+		// invalid, and a supply that is slower than the others' view change
+		sc.TxRate = 2 + int(t.Draw(SScen, 3))
+		sc.MaxTxPerBlock = 2 + int(t.Draw(SScen, 3))
+		sc.InvalidTxPM = pick(t, SScen, uint64(300), 500)
+		sc.SupplySlow = 1 + int64(t.Draw(SScen, 3))
+	}
 	return sc
 }
 
@@ -434,6 +466,21 @@ func WatchScenario(t *Tape) *Scenario {
 	sc.TxMissing = t.Chance(SScen, 1, 2)
 	if t.Chance(SScen, 1, 3) {
 		sc.MaxTPB = sc.TPB * time.Duration(pick(t, SScen, 2, 3, 8, 1))
+	}
+	// proposals that fail verification and verification callbacks that reject: the
+	// paths on which a node answers with a change-view request
+	if t.Chance(SScen, 1, 2) {
+		sc.TxRate = 1 + int(t.Draw(SScen, 3))
+		sc.MaxTxPerBlock = 1 + int(t.Draw(SScen, 3))
+		sc.InvalidTxPM = pick(t, SScen, uint64(200), 500)
+		sc.PoolHoldsInvalid = true
+	}
+	if t.Chance(SScen, 1, 3) {
+		sc.VerdictPM = pick(t, SScen, uint64(50), 200)
+	}
+	if t.Chance(SScen, 1, 4) {
+		sc.TPB2 = sc.TPB * 3 / 2
+		sc.TPB2From = sc.Start + 2
 	}
 	return sc
 }
